@@ -52,11 +52,14 @@ Monotonic(e) ==
      /\ (FinalTag(g.tag) \/ g.distance >= 1) /\ e.semver.ok /\ e.nsemver.ok /\ e.pep440.ok /\ e.npep440.ok) =>
     SvLess(e.semver.s, e.nsemver.s) /\ PepLess(e.pep440.s, e.npep440.s)
 
+\* every clause that fails is reported (comma-separated): a wrong component (C04) must not hide that the
+\* observed strings also break the order claims (C03), which are judged on the strings alone
 Reason(e) == IF e.panic THEN "panic"
-             ELSE IF ~Components(e) THEN "components"
-             ELSE IF ~WellFormed(e) THEN "wellformed"
-             ELSE IF ~Bounds(e) THEN "bounds"
-             ELSE IF ~Monotonic(e) THEN "monotonic" ELSE "ok"
+             ELSE IF ~WellFormed(e) THEN (IF ~Components(e) THEN "components,wellformed" ELSE "wellformed")
+             ELSE LET c == IF ~Components(e) THEN "components," ELSE ""
+                      b == IF ~Bounds(e) THEN "bounds," ELSE ""
+                      m == IF ~Monotonic(e) THEN "monotonic," ELSE ""
+                  IN IF c \o b \o m = "" THEN "ok" ELSE c \o b \o m
 Next == /\ l <= Len(Rec)
         /\ LET why == Reason(Rec[l]) IN IF why = "ok" THEN TRUE ELSE PrintT("MISMATCH " \o ToString(l) \o " " \o why)
         /\ l' = l + 1
